@@ -15,6 +15,7 @@ from __future__ import annotations
 
 import copy
 import gc
+import os
 import hashlib
 import json
 import sys
@@ -37,7 +38,8 @@ METHODS = {
         ('tracer_diffusivity_center_of_mass', [((), {}), ((), {'dimensions': 1}), ((), {'dimensions': 2})]),
         ('haven_ratio', [((), {}), ((), {'dimensions': 2})]),
         ('tracer_conductivity', [((), {'z_ion': 1}), ((), {'z_ion': 2}), ((), {'z_ion': 1, 'dimensions': 2}), ((), {'dimensions': 1, 'z_ion': 2}),
-                                 ((), {'z_ion': 2, 'dimensions': 1}), ((), {'dimensions': 2, 'z_ion': 1}), ((), {'z_ion': 3, 'dimensions': 3})]),
+                                 ((), {'z_ion': 2, 'dimensions': 1}), ((), {'dimensions': 2, 'z_ion': 1}), ((), {'z_ion': 3, 'dimensions': 3}),
+                                 ((), {'z_ion': -1}), ((), {'z_ion': -2})]),  # hash(-1) == hash(-2) in CPython
         ('attempt_frequency', [((), {})]),
         ('vibration_amplitude', [((), {})]),
         ('amplitudes', [((), {})]),
@@ -48,7 +50,7 @@ METHODS = {
         ('states_prev', [((), {})]),
     ],
     'jumps': [
-        ('jump_diffusivity', [((3,), {}), ((1,), {}), ((2,), {}), ((), {'dimensions': 2}), ((), {'dimensions': 3})]),
+        ('jump_diffusivity', [((3,), {}), ((1,), {}), ((2,), {}), ((), {'dimensions': 2}), ((), {'dimensions': 3}), ((-1,), {}), ((-2,), {})]),
         ('matrix', [((), {})]),
         ('collective', [((), {}), ((0.5,), {}), ((2.0,), {}), ((), {'max_dist': 4.0}), ((), {'max_dist': 2.0}), ((1,), {}),
                         (({'fwu': [2.0, 'bohr']},), {}), ((), {'max_dist': {'fwu': [4.0, 'bohr']}}), (({'npf': 2.0},), {}), ((), {'max_dist': {'fwu': [0.5, 'nm']}})]),
@@ -70,6 +72,10 @@ METHODS = {
 }
 
 
+def _tuplify(x):
+    return tuple(_tuplify(v) for v in x) if isinstance(x, list) else x
+
+
 def decode_arg(v):
     """JSON-able spellings of argument values that compare equal to a plain number but are not one."""
     if isinstance(v, dict) and 'fwu' in v:
@@ -89,6 +95,19 @@ def alt_conversion(transitions, *, minimal_residence: int = 0):
     return df.iloc[:-1].reset_index(drop=True) if len(df) > 2 else df
 
 
+# library code that *consumes* memoised values (plots, derived quantities): afterwards the memoised answers must be unchanged
+CONSUMERS = {
+    'jumps': [('plot_jumps_vs_distance', {'backend': 'matplotlib'}), ('plot_jumps_vs_distance', {'backend': 'plotly'}), ('plot_jumps_vs_time', {'backend': 'matplotlib'}),
+              ('plot_jumps_vs_time', {'backend': 'plotly'}), ('plot_collective_jumps', {'backend': 'matplotlib'}), ('plot_collective_jumps', {'backend': 'plotly'}),
+              ('plot_jumps_3d', {'backend': 'matplotlib'}), ('plot_jumps_3d', {'backend': 'plotly'}), ('activation_energy_between_sites', {'start': 'A', 'stop': 'B'}),
+              ('activation_energy_between_sites', {'start': 'B', 'stop': 'A'}), ('split', {'n_parts': 2}), ('jump_names', 'property'), ('n_jumps', 'property')],
+    'transitions': [('occupancy', {}), ('occupancy_by_site_type', {}), ('atom_locations', {}), ('split', {'n_parts': 2}), ('jumps', {}),
+                    ('radial_distribution', {'floating_specie': 'Li', 'max_dist': 3.0, 'resolution': 0.3})],
+    'metrics': [],
+    'collective': [],
+}
+
+
 DECORATED = {
     'metrics': 10, 'transitions': 3, 'jumps': 8, 'collective': 3,
 }
@@ -105,6 +124,14 @@ def setup():
     import gemdat.jumps  # noqa: F401
     import gemdat.metrics  # noqa: F401
     import gemdat.transitions  # noqa: F401
+    import matplotlib
+
+    matplotlib.use('Agg')
+    import matplotlib.pyplot  # noqa: F401
+
+    import gemdat.plots.matplotlib  # noqa: F401
+    import gemdat.plots.plotly  # noqa: F401
+    import gemdat.rdf  # noqa: F401
 
     sys.unraisablehook = lambda *a, **k: None
 
@@ -264,7 +291,8 @@ def sibling_world(rng: SimRandom, p: dict, idx: int) -> dict:
 
 
 class World:
-    def __init__(self, p: dict):
+    def __init__(self, p: dict, shared_sites=None):
+        self.shared_sites = shared_sites
         from pymatgen.core import Element, Lattice, Structure
 
         from gemdat import Trajectory
@@ -289,7 +317,7 @@ class World:
         L = Lattice.from_parameters(n_sites * p['spacing'], p['b'], 4.5, 90, 90, 90)
         labels = ['A' if (k + p.get('label_shift', 0)) % 2 == 0 else 'B' for k in range(n_sites)]
         site_frac = np.array([[(k + 0.5) / n_sites, 0.5, 0.5] for k in range(n_sites)])
-        self.sites = Structure(L, ['Li'] * n_sites, site_frac, labels=labels)
+        self.sites = self.shared_sites if self.shared_sites is not None else Structure(L, ['Li'] * n_sites, site_frac, labels=labels)
         occ = [int(x) for x in g.choice(n_sites, n_atoms, replace=False)]
         pos = np.zeros((nf, n_atoms, 3))
         moving = [None] * n_atoms
@@ -409,7 +437,12 @@ def generate(run_seed: int, tier: str = 'quick', stream: str = 'seq') -> dict:
     wparams = []
     for i in range(n_worlds):
         if i and rng.chance(0.4):
-            wparams.append(sibling_world(rng, rng.pick(wparams), i))
+            oi = rng.randrange(len(wparams))
+            sib = sibling_world(rng, wparams[oi], i)
+            if rng.chance(0.5):  # one Structure *instance* with the known sites reused for both simulations
+                sib['share_sites_with'] = oi if 'share_sites_with' not in wparams[oi] else wparams[oi]['share_sites_with']
+                sib['label_shift'] = wparams[oi].get('label_shift', 0)
+            wparams.append(sib)
         else:
             wparams.append(gen_world_params(rng, i))
     n_clients = rng.randint(1, 4)
@@ -425,6 +458,7 @@ def generate(run_seed: int, tier: str = 'quick', stream: str = 'seq') -> dict:
         'SHARE': rng.uniform(0, 1) if n_clients > 1 else 0, 'CHURN': rng.uniform(0, 1), 'REUSE': rng.uniform(0.5, 4),
         'FLOOD': rng.pick([0, 0, 0.15, 0.4]),
         'CONCURRENT': rng.pick([0, 0.5, 1.5]),
+        'CONSUME': rng.pick([0, 1, 2.5]),
     }
     n_ops = rng.randint(10, 120 if tier == 'quick' else 250)
     ops = []
@@ -516,6 +550,14 @@ def generate(run_seed: int, tier: str = 'quick', stream: str = 'seq') -> dict:
                    'gc': rng.chance(0.3), 'client': rng.randrange(n_clients)}
             names.append((new['name'], k))
             ops.append(new)
+        elif kind == 'CONSUME':
+            cand = [(n, k) for n, k in names if k in ('jumps', 'transitions')]
+            if not cand:
+                continue
+            n, k = rng.pick(cand)
+            if rng.chance(0.5):
+                ops.append(gen_query(n, k))
+            ops.append({'op': 'CONSUME', 'obj': n, 'which': rng.randrange(16)})
         elif kind == 'CONCURRENT':
             # two fresh objects of one kind on two worlds, asked the same question by two caller threads at once
             if n_worlds < 2:
@@ -654,20 +696,111 @@ class Run:
             return getattr(obj, method)
         return getattr(obj, method)(*[decode_arg(a) for a in args], **{k: decode_arg(v) for k, v in kwargs.items()})
 
+    def expected_inprocess(self, recipe, kind, mi, ai):
+        method, variants = self.methods[kind][mi]
+        with self.twins:
+            try:
+                obj = self.build(recipe, twin=True)
+                val = self.call(obj, method, variants[ai])
+                return ('ok', fingerprint(kind, method, val))
+            except Exception as e:  # noqa: BLE001
+                return ('exc', type(e).__name__)
+
     def expected(self, recipe, kind, mi, ai):
         key = (recipe, mi, ai)
         t = self.truth.get(key)
         if t is None:
-            method, variants = self.methods[kind][mi]
-            with self.twins:
-                try:
-                    obj = self.build(recipe, twin=True)
-                    val = self.call(obj, method, variants[ai])
-                    t = ('ok', fingerprint(kind, method, val))
-                except Exception as e:  # noqa: BLE001
-                    t = ('exc', type(e).__name__)
+            t = self.expected_inprocess(recipe, kind, mi, ai)
             self.truth[key] = t
+            # second opinion: the same uncached computation in a process that has seen none of this run's history.  The
+            # uncached twin bypasses weak_lru_cache, but not a memo hidden somewhere else in the library.
+            shared = self.sc['world']['worlds'][self.root_world(recipe) % len(self.worlds)]
+            n = len(self.truth)
+            if self.zygote and ((('sibling_of_seed' in shared or 'share_sites_with' in shared) and n % 3 == 0) or n % 12 == 0):
+                p = self.pristine(recipe, kind, mi, ai)
+                self.oracle_checks += 1
+                self.stats.probe('pristine_process_crosschecks')
+                if p is not None and not same(t, p):
+                    method, variants = self.methods[kind][mi]
+                    self.violation(
+                        'result_depends_on_process_history',
+                        f'uncached {kind}.{method}{variants[ai]} for recipe {recipe} gives another value in this process than in a pristine process '
+                        'that has analysed nothing before: something outside the object carries results from one object to another',
+                        {'kind': kind, 'method': method},
+                    )
         return t
+
+    # -- a pristine process (forked before the first operation) that recomputes on request ---------------------------
+    def start_zygote(self):
+        self.zygote = None
+        if self.cfg.get('no_zygote'):
+            return
+        req_r, req_w = os.pipe()
+        res_r, res_w = os.pipe()
+        pid = os.fork()
+        if pid == 0:
+            try:
+                os.close(req_w)
+                os.close(res_r)
+                f = os.fdopen(req_r, 'rb')
+                while True:
+                    line = f.readline()
+                    if not line:
+                        break
+                    gpid = os.fork()
+                    if gpid == 0:
+                        code = 0
+                        try:
+                            recipe, kind, mi, ai = json.loads(line)
+                            out = self.expected_inprocess(_tuplify(recipe), kind, mi, ai)
+                            data = json.dumps(out, default=str).encode()
+                            os.write(res_w, len(data).to_bytes(8, 'big') + data)
+                        except BaseException:  # noqa: BLE001
+                            code = 3
+                        finally:
+                            os._exit(code)
+                    _, st = os.waitpid(gpid, 0)
+                    if st != 0:
+                        os.write(res_w, (0).to_bytes(8, 'big'))
+            finally:
+                os._exit(0)
+        os.close(req_r)
+        os.close(res_w)
+        self.zygote = (pid, req_w, res_r)
+
+    def pristine(self, recipe, kind, mi, ai):
+        pid, req_w, res_r = self.zygote
+        os.write(req_w, (json.dumps([recipe, kind, mi, ai]) + '\n').encode())
+
+        def read_n(n):
+            buf = b''
+            while len(buf) < n:
+                b = os.read(res_r, n - len(buf))
+                if not b:
+                    raise HarnessError('zygote closed the pipe')
+                buf += b
+            return buf
+
+        n = int.from_bytes(read_n(8), 'big')
+        if n == 0:
+            self.stats.probe('pristine_process_failed')
+            return None
+        out = json.loads(read_n(n))
+        return (out[0], out[1])
+
+    def stop_zygote(self):
+        if getattr(self, 'zygote', None):
+            pid, req_w, res_r = self.zygote
+            self.zygote = None
+            for fd in (req_w, res_r):
+                try:
+                    os.close(fd)
+                except OSError:
+                    pass
+            try:
+                os.waitpid(pid, 0)
+            except ChildProcessError:
+                pass
 
     def live_count(self):
         return sum(1 for e in self.entries.values() if e.obj is not None)
@@ -784,7 +917,9 @@ class Run:
         ms = self.methods[e.kind]
         n_known = len(METHODS[e.kind])
         mi = op['m'] % n_known
-        if len(ms) > n_known and (self.step + op['m']) % 3 == 0:
+        if op.get('exact'):
+            mi = op['m'] % len(ms)
+        elif len(ms) > n_known and (self.step + op['m']) % 3 == 0:
             mi = n_known + (self.step % (len(ms) - n_known))
         method, variants = ms[mi]
         ai = op['a'] % len(variants)
@@ -1050,6 +1185,32 @@ class Run:
                     {'kind': e.kind, 'method': method},
                 )
 
+    def op_consume(self, op):
+        e = self.entries.get(op['obj'])
+        if e is None or e.obj is None or not CONSUMERS.get(e.kind):
+            return self.trace.log(ev='CONSUME', step=self.step, skipped=True)
+        name, kw = CONSUMERS[e.kind][op['which'] % len(CONSUMERS[e.kind])]
+        outcome = 'ok'
+        try:
+            r = getattr(e.obj, name) if kw == 'property' else getattr(e.obj, name)(**kw)
+            del r
+        except Exception as ex:  # noqa: BLE001  (what the consumer returns is not C20's business)
+            outcome = type(ex).__name__
+        try:
+            import matplotlib.pyplot as plt
+
+            plt.close('all')
+        except Exception:  # noqa: BLE001
+            pass
+        self.stats.fault('consumer_call')
+        self.stats.probe('consume_' + name)
+        self.trace.log(ev='CONSUME', step=self.step, name=e.name, what=name, outcome=outcome)
+        # every answer this object gave before must be given again, unchanged (a consumer that edits a memoised array in place
+        # shows up as drift / as a difference from the uncached recomputation)
+        asked = sorted(k for k in self.asked if k[0] == e.name)
+        for (_, mi, ai) in asked[:4]:
+            self.op_query({'obj': e.name, 'm': mi, 'a': ai, 'exact': True}, relation='after_consumer')
+
     def op_flood(self, op):
         kind = op['kind']
         room = MAX_LIVE - self.live_count()
@@ -1081,7 +1242,11 @@ class Run:
 
     # -- main --------------------------------------------------------------
     def run(self):
-        self.worlds = [World(p) for p in self.sc['world']['worlds']]
+        self.worlds = []
+        for p in self.sc['world']['worlds']:
+            sw = p.get('share_sites_with')
+            self.worlds.append(World(p, shared_sites=self.worlds[sw].sites if sw is not None and sw < len(self.worlds) else None))
+        self.start_zygote()
         self.trace.log(ev='world', n=len(self.worlds))
         if sum(self.twins.n_decorated.values()) == 0:
             # no method exposes __wrapped__ (caching removed or implemented differently): the twin is then the class itself
@@ -1097,7 +1262,7 @@ class Run:
         else:
             gc.enable()
         table = {'CREATE': self.op_create, 'QUERY': self.op_query, 'DROP': self.op_drop, 'GC': self.op_gc, 'SHARE': self.op_share,
-                 'CHURN': self.op_churn, 'REUSE_PROBE': self.op_reuse, 'FLOOD': self.op_flood, 'CONCURRENT': self.op_concurrent}
+                 'CHURN': self.op_churn, 'REUSE_PROBE': self.op_reuse, 'FLOOD': self.op_flood, 'CONCURRENT': self.op_concurrent, 'CONSUME': self.op_consume}
         for i, op in enumerate(self.sc['ops']):
             self.step = i
             table[op['op']](op)
@@ -1136,6 +1301,7 @@ def execute(scenario: dict, workdir: str, keep_events: bool = False) -> dict:
         run.trace.log(ev='VIOLATION', cls=v.cls, step=v.step)
     finally:
         sys.settrace(None)
+        run.stop_zygote()
     st = run.stats
     res = {
         'digest': run.trace.digest(),
